@@ -143,16 +143,9 @@ func UpdatePathAttrs4ByteAs(logger *slog.Logger, msg *bgp.BGPUpdate) {
 	}
 
 	asLen := 0
-	asConfedLen := 0
 	asParams := make([]bgp.AsPathParamInterface, 0, len(asAttr.Value))
 	for _, param := range asAttr.Value {
 		asLen += param.ASLen()
-		switch param.GetType() {
-		case bgp.BGP_ASPATH_ATTR_TYPE_CONFED_SET:
-			asConfedLen++
-		case bgp.BGP_ASPATH_ATTR_TYPE_CONFED_SEQ:
-			asConfedLen += len(param.GetAS())
-		}
 		asParams = append(asParams, param)
 	}
 
@@ -185,31 +178,45 @@ func UpdatePathAttrs4ByteAs(logger *slog.Logger, msg *bgp.BGPUpdate) {
 		}
 	}
 
-	if asLen+asConfedLen < as4Len {
+	// RFC 6793 4.2.3: the AS numbers of both attributes are counted as for
+	// route selection, i.e. an AS_SET counts as one and confederation
+	// segments do not count.
+	if asLen < as4Len {
 		logger.Warn("AS4_PATH is longer than AS_PATH. ignore AS4_PATH",
 			slog.String("Topic", "Table"))
 		return
 	}
 
-	keepNum := asLen + asConfedLen - as4Len
+	// Take keepNum AS numbers from the leading part of AS_PATH. A
+	// confederation segment is taken along when it is the leading segment or
+	// follows a segment that is taken as a whole.
+	keepNum := asLen - as4Len
 
 	newParams := make([]bgp.AsPathParamInterface, 0, len(asAttr.Value))
 	for _, param := range asParams {
-		if keepNum-param.ASLen() >= 0 {
+		n := param.ASLen()
+		if n == 0 {
 			newParams = append(newParams, param)
-			keepNum -= param.ASLen()
-		} else {
-			// only SEQ param reaches here
-			newParams = append(newParams, bgp.NewAs4PathParam(param.GetType(), param.GetAS()[:keepNum]))
-			keepNum = 0
+			continue
 		}
-
-		if keepNum <= 0 {
+		if keepNum == 0 {
 			break
 		}
+		if n <= keepNum {
+			newParams = append(newParams, param)
+			keepNum -= n
+			continue
+		}
+		// only SEQ param reaches here
+		newParams = append(newParams, bgp.NewAs4PathParam(param.GetType(), param.GetAS()[:keepNum]))
+		break
 	}
 
 	for _, param := range as4Params {
+		if len(newParams) == 0 {
+			newParams = append(newParams, param)
+			continue
+		}
 		lastParam := newParams[len(newParams)-1]
 		lastParamAS := lastParam.GetAS()
 		paramType := param.GetType()
